@@ -32,7 +32,7 @@ ASSUMPTIONS = ['interleavings are explored at source-line granularity of supp/re
                'the fake connection answers requests in arrival order, as the single-threaded server does',
                'liveness bounds in the real-process part are generous (10 s) and their expiry with the child provably alive is a violation, otherwise inconclusive']
 
-CALLS = {'A': ('lint', ('src-A', 'a.py')), 'B': ('assist', ('src-B', (1, 0), 'b.py')), 'C': ('location', ('src-C', (2, 3), 'c.py'))}
+CALLS = {'G': ('configure', ({'sources': ['.']},)), 'A': ('lint', ('src-A', 'a.py')), 'B': ('assist', ('src-B', (1, 0), 'b.py')), 'C': ('location', ('src-C', (2, 3), 'c.py'))}
 
 
 def expected_reply(op):
@@ -173,6 +173,10 @@ def scenarios():
     for b in ('PA', 'PAB', 'PPA'):
         out.append({'ops': b, 'pre': False, 'second': '', 'fail_first': True})
     out.append({'ops': 'A', 'pre': True, 'second': '', 'fail_first': True})
+    # a configured session, close(), and a second session started concurrently (nothing of the first may leak into it)
+    for b in ('AB', 'PA', 'PAB'):
+        out.append({'ops': 'G', 'pre': False, 'second': b})
+    out.append({'ops': 'GA', 'pre': True, 'second': 'PB'})
     # close() concurrent with background pre-start requests (no call in flight), then calls
     out.append({'ops': 'PX', 'pre': False, 'second': '', 'then': 'A'})
     out.append({'ops': 'PPX', 'pre': False, 'second': '', 'then': 'AB'})
